@@ -25,7 +25,7 @@ PROPERTY = "C10"
 LEVEL = "exploration"
 EXHAUSTIVE = False
 CRASH_IS_VIOLATION = False
-RULE = ("six scenario families per (framework, transport, serializer): (1) behaviour matrix - every endpoint outcome "
+RULE = ("seven scenario families per (framework, transport, serializer): (1) behaviour matrix - every endpoint outcome "
         "{value kinds, CallResult shapes, None, un-serializable (object / nested / in CallResult / function / with a huge "
         "repr), encoded size = limit-1, limit, limit+1, 2*limit; raises ApplicationError / decorated / define()d / unmapped, "
         "with un-serializable or oversized args} x {synchronous, already-fired future, pending future resolved later} x "
@@ -37,7 +37,14 @@ RULE = ("six scenario families per (framework, transport, serializer): (1) behav
         "Registration.unregister() (from the application or from inside the endpoint) and the router's UNREGISTERED / ERROR "
         "reply at every point relative to pending invocations of that registration (result before / between / after, "
         "invoked between UNREGISTER and UNREGISTERED, interrupted or progressive across it, two pending), also mixed into "
-        "the random histories.  A case is "
+        "the random histories; (7) the session holds a WAMP-cryptobox key ring (set_payload_codec; default key or a key for "
+        "the procedure prefix only; responder-only or full key) and INVOCATIONs arrive END-TO-END ENCRYPTED, sealed by the "
+        "harness with PyNaCl: the behaviour matrix again (results / errors / progress the key ring's inner JSON cannot "
+        "encode but the transport could or could not carry, encrypted replies below / near / above the transport limit), "
+        "INVOCATIONs the callee cannot decrypt (altered, foreign-key, truncated ciphertext; no codec on the session), the "
+        "application removing / re-installing the codec at every point relative to pending invocations, INTERRUPT at every "
+        "point, 2-3 concurrently pending encrypted and clear invocations resolved in every order; a fifth of the random "
+        "histories run on such a session too.  A case is "
         "non-trivial when at least one delivered invocation was judged from the wire; distinct = hash(framework, case).")
 ASSUMPTIONS = [
     "the scripted router is conforming: INVOCATIONs only for registrations it confirmed, request ids unique among "
@@ -61,8 +68,16 @@ ASSUMPTIONS = [
     "unconditionally raises TypeError when the caller did not ask for progress and must then be answered with an ERROR",
     "obligations lapse when the callee itself tears the session down; that event is reported as its own violation class "
     "because the router gave no cause for it",
-    "not driven: payload encryption (C20), transport loss while invocations are pending (C06), check_types, forward_for, "
+    "not driven: transport loss while invocations are pending (C06), check_types, forward_for, "
     "custom Deferred cancellers, endpoints that swallow the cancellation",
+    "payload encryption: only the reply-count / reply-kind / payload-equality clauses are judged here (encrypted replies are "
+    "opened with PyNaCl and the harness' own key material, never with the library's KeyRing); WHETHER a reply must be "
+    "encrypted is C20's business, so for an encrypted invocation whose result the key ring cannot encode but the transport "
+    "could carry, or whose codec the application removed while it was pending, or whose encrypted YIELD is within 16 octets "
+    "of the transport limit (box overhead arithmetic), one YIELD with the right value or one ERROR are both accepted; an "
+    "INVOCATION the callee cannot decrypt is answered by an ERROR without the endpoint being invoked",
+    "removing / re-installing the payload codec through the public set_payload_codec() while calls are pending is legal "
+    "application behaviour",
     "transport.send is wrapped on the protocol instance only to CLASSIFY violations by the exception chain; the verdict "
     "uses the wire and the endpoint's observations only",
 ]
@@ -72,13 +87,19 @@ DECIDING = {
     "interrupt_while-pending": 1000, "interrupt_same-read": 500, "interrupt_before-invocation": 500,
     "interrupt_after-completion": 500, "cancel_error_seen": 1000, "pending_silent_checked": 200,
     "limit_boundary_yield": 300, "length_prediction_exact": 300, "concurrent_cases": 1500, "rid_reused": 300,
-    "oversized_cases": 1000, "unserializable_cases": 1000, "combos": 16, "families": 6,
+    "oversized_cases": 1000, "unserializable_cases": 1000, "combos": 16, "families": 7,
     "unregister_requests": 1000, "unregistered_delivered": 800, "replies_due_after_unregistered": 500,
     "inv_between_unregister_and_reply": 200, "unregister_refused": 100,
     "explicit_false_receive_progress_checked": 2000, "explicit_false_progressive_endpoint": 500, "progress_idiom": 2,
     "autofragment_cases": 1000, "autofragment_limit_judged": 500, "autofragment_oversized_judged": 300,
     "ws_fragmented_messages": 1000, "autofragment_relation": 8,
     "bound_object_compared": 3000, "falsy_object_invocations": 1000, "object_truth": 6,
+    # payload-codec dimension (family 7 + a fifth of the random histories)
+    "enc_invocations_judged": 4000, "enc_yield_opened_compared": 2000, "enc_error_replies": 1000, "enc_error_opened": 400,
+    "enc_unencryptable_mapped_to_error": 300, "enc_undecryptable_mapped_to_error": 150, "enc_undecryptable_not_invoked": 150,
+    "enc_codec_removed_judged": 100, "enc_oversized_mapped_to_error": 100, "enc_progress_opened": 500,
+    "enc_cancel_error_seen": 150, "codec_switched": 1000, "keyring_session_plain_invocations": 1000,
+    "enc_classes": 7, "enc_config": 6, "enc_undecryptable_reasons": 4,
 }
 
 COMBOS = [(t, s) for t in ("websocket", "rawsocket") for s in ("json", "msgpack", "cbor", "ubjson")]
@@ -220,11 +241,18 @@ class Gen:
         return {"transport": self.transport, "serializer": self.ser, "limit": limit, "traceback_app": self.rng.random() < 0.15,
                 "procs": procs, "invs": invs, "steps": steps, "family": family}
 
-    def probe(self, procs, invs, rid):
+    def probe(self, procs, invs, rid, enc=None):
         """A plain trailing invocation: the session must still serve."""
         pi = self.rng.randrange(len(procs))
         invs.append(self.inv(pi, procs[pi], rid, {"mode": "sync", "out": ["ret", "tag"], "progress": []}, shape="args", rp=False))
+        if enc:
+            invs[-1]["enc"] = enc
         return ["feed", [["inv", len(invs) - 1]]]
+
+    def enc_cfg(self, session_codec=True):
+        """The callee's payload-codec configuration (see vf/c10_enc.py)."""
+        r = self.rng
+        return {"keys": r.choice(["default", "default", "prefix"]), "view": r.choice(["resp", "full"]), "session_codec": session_codec}
 
 
 def gen_matrix(g, tier, part, parts):
@@ -407,7 +435,18 @@ def gen_random(g, n_cases):
         else:
             steps.append(g.probe(procs, invs, rids[n]))
         sized = any(inv["plan"]["out"][1].startswith(("big:", "ubig:")) for inv in invs)
-        yield g.base(procs, invs, steps, g.limit(need_limit=sized and r.random() < 0.8), "random")
+        c = g.base(procs, invs, steps, g.limit(need_limit=sized and r.random() < 0.8), "random")
+        if r.random() < 0.2:
+            # the same history on a session that holds a key ring; most invocations arrive encrypted, a few undecryptable
+            c["enc"] = g.enc_cfg(session_codec=r.random() < 0.93)
+            for inv in invs:
+                inv["enc"] = r.choice(["ok"] * 7 + [None, None] + [r.choice(ENC_BAD)])
+            if c["enc"]["session_codec"] and r.random() < 0.3:
+                a = r.randint(0, len(steps) - 1)
+                steps.insert(a, ["codec", "off"])
+                if r.random() < 0.7:
+                    steps.insert(r.randint(a + 1, len(steps)), ["codec", "on"])
+        yield c
 
 
 UNREG_PLACEMENTS = ["result-after-unregistered", "result-between", "result-before-unregister", "invoked-between",
@@ -469,6 +508,168 @@ def gen_unregister(g, tier, part, parts):
                     steps.append(["feed", [["inv", len(invs) - 1]]])
                     sized = out[1].startswith("big:")
                     yield g.base(procs, invs, steps, g.limit(need_limit=sized), "unregister")
+
+
+ENC_OUTS = OUTS + [["ret", "big:/2"], ["ret", "big:/2"]]
+ENC_BAD = ["tampered", "wrong-key", "garbage"]
+ENC_CODEC_PLACEMENTS = ["off-while-pending", "off-on-while-pending", "off-before-invocation", "off-then-interrupt", "off-between-progress",
+                        "off-before-sync", "two-pending-off-between", "off-on-before-invocation"]
+ENC_INT_POSITIONS = ["before-same-read", "after-same-read", "after-separate", "progress-int-late", "after-resolve", "twice-separate"]
+
+
+def gen_encrypted(g, tier, part, parts):
+    """The session holds a WAMP-cryptobox key ring (set_payload_codec) and INVOCATIONs arrive end-to-end encrypted:
+    the reply path then has failure modes of its own (result / error / progress the key ring cannot encode, codec
+    removed while the call is pending, INVOCATION the callee cannot decrypt, encrypted reply exceeding the transport
+    limit) - each still owes exactly one terminal reply."""
+    r = g.rng
+    idx = 0
+    quick = tier == "quick"
+
+    def take():
+        nonlocal idx
+        idx += 1
+        return idx % parts == part
+
+    # (a) behaviour matrix under encryption
+    modes = ["sync", "pending", "fired"]
+    if quick:
+        combos = [(o, m, None, "?") for o in ENC_OUTS for m in modes]
+    else:
+        combos = [(o, m, st, d) for o in ENC_OUTS for m in modes for st in g.styles for d in (None, "flag")]
+    for out, mode, style, det in combos:
+        if not take():
+            continue
+        proc = g.proc(style, det)
+        if proc["style"] in ("coro", "icb") and mode == "fired":
+            continue
+        sized = out[1].startswith(("big:", "ubig:"))
+        rid, rid2, rid3 = g.rids(3)
+        invs = [g.inv(0, proc, rid, g.plan(proc, out, mode))]
+        invs[0]["enc"] = "ok"
+        steps = [["feed", [["inv", 0]], r.choice([None, None, "bytewise", [r.randint(1, 200)]])]]
+        if mode == "pending":
+            steps.append(["res", 0])
+        steps.append(g.probe([proc], invs, rid2, enc="ok"))
+        if r.random() < 0.5:
+            steps.append(g.probe([proc], invs, rid3))           # a clear invocation served by the same session
+        c = g.base([proc], invs, steps, g.limit(need_limit=sized and (out[1].endswith("/2") or r.random() < 0.8)), "encrypted")
+        c["enc"] = g.enc_cfg()
+        yield c
+    # (b) INVOCATIONs the callee cannot decrypt (altered / foreign-key / truncated ciphertext, no codec on the session)
+    for how in ENC_BAD + ["no-codec"]:
+        for mode in ("sync", "pending"):
+            for rep in range(1 if quick else 4):
+                if not take():
+                    continue
+                procs = [g.proc(), g.proc()]
+                rids = g.rids(4)
+                invs = [g.inv(0, procs[0], rids[0], g.plan(procs[0], None, mode)),
+                        g.inv(1, procs[1], rids[1], g.plan(procs[1], ["ret", "tag"], "pending"))]
+                invs[0]["enc"] = "ok" if how == "no-codec" else how
+                invs[1]["enc"] = "ok"
+                order = r.choice([[1, 0], [0, 1]])
+                steps = [["feed", [["inv", order[0]], ["inv", order[1]]]]] if r.random() < 0.5 else [["feed", [["inv", order[0]]]], ["feed", [["inv", order[1]]]]]
+                if r.random() < 0.5:
+                    steps.append(["feed", [["int", 0, r.choice(INT_OPTS)]]])
+                steps += [["res", 0], ["res", 1]]
+                steps.append(g.probe(procs, invs, rids[2], enc=r.choice(["ok", None])))
+                c = g.base(procs, invs, steps, g.limit(), "encrypted")
+                c["enc"] = g.enc_cfg(session_codec=how != "no-codec")
+                yield c
+    # (c) the application removes / re-installs the codec at every point relative to a pending encrypted invocation
+    outs_c = [["ret", "tag"], ["ret", "cr"], ["ret", "unser-set"], ["raise", "app"], ["raise", "unmapped"], ["ret", "unser"], ["raise", "app-unser"]]
+    for style in g.styles:
+        for out in (outs_c[:2] + [r.choice(outs_c[2:])] if quick else outs_c):
+            for pl in ENC_CODEC_PLACEMENTS:
+                if not take():
+                    continue
+                progressive = pl == "off-between-progress"
+                proc = g.proc(style, r.choice(["flag", "arg:d"]) if progressive else "?")
+                rids = g.rids(4)
+                mode = "sync" if pl == "off-before-sync" else "pending"
+                invs = [g.inv(0, proc, rids[0], g.plan(proc, out, mode, progress=[] if progressive else None), rp=True if progressive else None)]
+                invs[0]["enc"] = "ok"
+                I, OFF, ON = ["feed", [["inv", 0]]], ["codec", "off"], ["codec", "on"]
+                if pl == "off-while-pending":
+                    steps = [I, OFF, ["res", 0]]
+                elif pl == "off-on-while-pending":
+                    steps = [I, OFF, ON, ["res", 0]]
+                elif pl == "off-before-invocation":
+                    steps = [OFF, I, ["res", 0]]
+                elif pl == "off-then-interrupt":
+                    steps = [I, OFF, ["feed", [["int", 0, r.choice(INT_OPTS)]]], ["res", 0]]
+                elif pl == "off-between-progress":
+                    steps = [I, ["prog", 0, "tag"], OFF, ["prog", 0, "kw"], ON, ["prog", 0, "both"], ["res", 0]]
+                elif pl == "off-before-sync":
+                    steps = [I, OFF]
+                elif pl == "two-pending-off-between":
+                    invs.append(g.inv(0, proc, rids[1], g.plan(proc, r.choice(outs_c), "pending")))
+                    invs[1]["enc"] = "ok"
+                    steps = [["feed", [["inv", 0], ["inv", 1]]], ["res", 0], OFF, ["res", 1]]
+                else:
+                    steps = [OFF, ON, I, ["res", 0]]
+                steps.append(g.probe([proc], invs, rids[2], enc=None))        # clear invocation: served with or without codec
+                steps += [ON, g.probe([proc], invs, rids[3], enc="ok")]
+                c = g.base([proc], invs, steps, g.limit(), "encrypted")
+                c["enc"] = g.enc_cfg()
+                yield c
+    # (d) INTERRUPT at every point of an encrypted invocation
+    outs_d = [["ret", "tag"], ["ret", "unser-set"], ["raise", "app"], ["ret", "unser"], ["ret", "big:x2"], ["raise", "app-unser"]]
+    for style in g.styles:
+        for mode in ("sync", "pending"):
+            for out in ([outs_d[0], r.choice(outs_d[1:])] if quick else outs_d):
+                for pos in ENC_INT_POSITIONS:
+                    if not take():
+                        continue
+                    late = pos == "progress-int-late"
+                    proc = g.proc(style, r.choice(["flag", "arg:d"]) if late else "?")
+                    rid, rid2 = g.rids(2)
+                    invs = [g.inv(0, proc, rid, g.plan(proc, out, mode, progress=[] if late else None), rp=True if late else None)]
+                    invs[0]["enc"] = "ok"
+                    o = lambda: ["int", 0, r.choice(INT_OPTS)]
+                    I = ["inv", 0]
+                    if pos == "before-same-read":
+                        steps = [["feed", [o(), I]], ["res", 0]]
+                    elif pos == "after-same-read":
+                        steps = [["feed", [I, o()]], ["res", 0]]
+                    elif pos == "after-separate":
+                        steps = [["feed", [I]], ["feed", [o()]], ["res", 0]]
+                    elif late:
+                        steps = [["feed", [I]], ["prog", 0, "tag"], ["prog", 0, r.choice(PROGRESS_KINDS)], ["feed", [o()]]]
+                        if LATE_PROGRESS and mode == "pending":
+                            steps.append(["prog", 0, "tag"])
+                        steps.append(["res", 0])
+                        if mode == "sync":
+                            steps = [["feed", [I]], ["feed", [o()]]]
+                    elif pos == "after-resolve":
+                        steps = [["feed", [I]], ["res", 0], ["feed", [o()]]]
+                    else:
+                        steps = [["feed", [I]], ["feed", [o()]], ["feed", [o()]], ["res", 0]]
+                    steps.append(g.probe([proc], invs, rid2, enc="ok"))
+                    c = g.base([proc], invs, steps, g.limit(need_limit=out[1].startswith("big:")), "encrypted")
+                    c["enc"] = g.enc_cfg()
+                    yield c
+    # (e) 2-4 concurrently pending encrypted / clear invocations with (un)encryptable outcomes, resolved in every order
+    outs_e = [["ret", "tag"], ["ret", "unser-set"], ["ret", "unser"], ["raise", "app"], ["ret", "cr"], ["raise", "app-unser"], ["ret", "unser-cr"]]
+    for k in (2, 3):
+        for perm in itertools.permutations(range(k)):
+            for rep in range(2 if quick else 6):
+                if not take():
+                    continue
+                procs = [g.proc() for _ in range(r.choice([1, k]))]
+                rids = g.rids(k + 1)
+                invs = []
+                for i in range(k):
+                    pi = r.randrange(len(procs))
+                    invs.append(g.inv(pi, procs[pi], rids[i], g.plan(procs[pi], r.choice(outs_e), "pending")))
+                    invs[-1]["enc"] = r.choice(["ok", "ok", "ok", None])
+                steps = [["feed", [["inv", i] for i in range(k)]]] if r.random() < 0.5 else [["feed", [["inv", i]]] for i in range(k)]
+                steps += [["res", i] for i in perm]
+                steps.append(g.probe(procs, invs, rids[k], enc="ok"))
+                c = g.base(procs, invs, steps, g.limit(), "encrypted")
+                c["enc"] = g.enc_cfg()
+                yield c
 
 
 def gen_orders(g, tier, part, parts):
@@ -580,7 +781,7 @@ def run_shard(params, R):
     R.seen("nvx", "uses_nvx=%s" % getattr(W, "USES_NVX", None))
     n_random = 600 if tier == "quick" else 5000
     gens = [gen_matrix(g, tier, part, parts), gen_interrupt_points(g, tier, part, parts), gen_unregister(g, tier, part, parts),
-            gen_orders(g, tier, part, parts),
+            gen_orders(g, tier, part, parts), gen_encrypted(g, tier, part, parts),
             gen_limits(g, tier, part, parts, seed), gen_random(g, n_random)]
     import time
     spent = {}
@@ -614,8 +815,10 @@ MANIFEST_ENTRY = {
              "with the INVOCATION.  Held = no deviation on the executions listed in the evidence; not a proof."),
     "note": ("trusts the plain json/msgpack/cbor2/bjdata codecs and the harness frame parsers; same-read INVOCATION+INTERRUPT "
              "races accept YIELD or ERROR; ERROR URIs are not asserted; RawSocket limit 2^9 is unreachable (HELLO does not fit); "
-             "payload encryption, transport loss and check_types are left to other properties"),
+             "sessions with a cryptobox key ring and encrypted INVOCATIONs are driven (replies opened with PyNaCl), but whether a "
+             "reply has to be encrypted is left to C20; transport loss and check_types are left to other properties"),
     "technique": ("runtime monitoring: per-request-id reply counter and payload/argument equality over wire-decoded histories of a "
                   "real session behind the four real client transports, scripted-router workload (behaviour matrix, interrupt at "
-                  "every point, random concurrent histories, exhaustive event orders, size-limit boundaries)"),
+                  "every point, random concurrent histories, exhaustive event orders, size-limit boundaries, end-to-end "
+                  "encrypted invocations on a session with a payload codec)"),
 }
